@@ -26,7 +26,7 @@ OPS = ["decode", "meta", "rows", "elem", "col_int", "col_slice", "red_row", "red
 FLOOR_TAGS = ["op:" + o for o in OPS] + ["variant:2d", "variant:ragged", "variant:ragged_from_matrix", "rows:int", "rows:slice", "rows:list", "rows:mask",
                                          "cs:pos", "cs:neg", "side:L", "side:R", "red:argmax", "red:mean", "col:sum", "col:mean", "col:col_counts", "col:any", "j:neg",
                                          "kind:b", "kind:i", "kind:u", "kind:f", "order:F", "order:T", "source:lazyrows", "source:lazychain"]
-FLOOR_MONITORS = ["c17:compare", "inv:rla", "inv:ragged"]
+FLOOR_MONITORS = ["c17:compare", "inv:rla"]
 N_RANDOM = {"quick": 20000, "thorough": 300000}
 
 
